@@ -298,6 +298,30 @@ def alignment(ctx, d5):
                     'rows are copied by position (%s) on a path where the two phase tuples are not known to be equal' % whole, f, e.stmt)
     if not seen:
         raise AnalysisError('MaterialIndexer.copy_like: no whole-array copies found')
+    # MultiStream.copy_flow transfers 2-d blocks between the data of two multi-phase streams: positions mean the same phase only
+    # if the phase tuples are equal, so the function must compare them (and re-derive the source rows by label otherwise)
+    g = prog.method('MultiStream', 'copy_flow', rel=MS)
+    o_ = g.params[1]
+    transfers = [n for n in walk_no_nested(g.node) if isinstance(n, ast.Assign) and isinstance(n.targets[0], ast.Subscript)
+                 and isinstance(n.value, ast.Subscript) and isinstance(n.targets[0].slice, ast.Tuple) and isinstance(n.value.slice, ast.Tuple)]
+    if not transfers:
+        raise AnalysisError('MultiStream.copy_flow: no block transfers found')
+
+    def compares_phases(t):
+        for c in ast.walk(t):
+            if isinstance(c, ast.Compare) and len(c.comparators) == 1:
+                a, b = src(c.left), src(c.comparators[0])
+                if 'phases' in a and 'phases' in b and ((a.startswith('self') and b.startswith(o_)) or (b.startswith('self') and a.startswith(o_))):
+                    return True
+        return False
+    guards = [n for n in g.node.body if isinstance(n, ast.If) and compares_phases(n.test)
+              and any(isinstance(x, ast.Assign) for x in ast.walk(n))]
+    first = min(n.lineno for n in transfers)
+    if guards and guards[0].lineno < first:
+        d5.ok('MultiStream.copy_flow', '%d block transfers, all after the phase tuples of the two streams are compared and the source rows re-derived by label' % len(transfers), g, guards[0])
+    else:
+        d5.fail('MultiStream.copy_flow', 'positional-copy-misaligned', 'blocks of rows are copied by position between two multi-phase streams without comparing their phase tuples: '
+                'with different tuples the material lands in another phase and unmatched rows keep stale flows', g, transfers[0])
 
 
 def all_quantifier(ctx, rule):
